@@ -8,6 +8,7 @@ CONSTANTS
   FixSessErr = FALSE
   FixRet = FALSE
   FixAdd = FALSE
-  Depth = 12
+  Depth = 14
   Loop = FALSE
+  AddGate = TRUE
 CHECK_DEADLOCK FALSE
